@@ -102,7 +102,7 @@ def model_obs_rt(case, resp):
 
 
 def collision(names):
-    """KF2 signature: some input name equals another input name followed by -k with k below that name's multiplicity"""
+    """F27 territory (formerly KF2): some input name equals another input name followed by -k with k below that name's multiplicity"""
     from collections import Counter
 
     cnt = Counter(names)
@@ -135,8 +135,6 @@ def oracle_rt(case, obs):
     return None
 
 
-def known_suffix(sec, case, obs):
-    return sec.name == "write_read_bitwise" and collision(case["names"])
 
 
 # ------------------------------------------------------------------ reading hand-written files
@@ -311,13 +309,13 @@ def oracle_ops(case, obs):
 CHECK = Check(
     id="C15",
     title="Phenotype/covariate files round-trip bit-exactly; table operations are exact",
-    theorems=["C15.parse_render", "C15.bad_rows_skipped_not_shifted", "C15.parsed_row_is_its_line", "C15.leading_comments_ignored", "C15.repeated_name_made_unique", "C15.uniqNames_collision_witness", "C09R.standardize_mean_zero", "C09R.standardize_var_one"],
+    theorems=["C15.parse_render", "C15.bad_rows_skipped_not_shifted", "C15.parsed_row_is_its_line", "C15.leading_comments_ignored", "C15.names_made_unique", "C15.repeated_name_made_unique", "C15.uniqNamesOld_collision_witness", "C09R.standardize_mean_zero", "C09R.standardize_var_one"],
     imports=("HapModel", "HapReal"),
     build_targets=("HapModel", "HapReal"),
     sections=[
         Section(
             name="write_read_bitwise",
-            theorems=["C15.parse_render", "C15.repeated_name_made_unique", "C15.uniqNames_collision_witness"],
+            theorems=["C15.parse_render", "C15.names_made_unique", "C15.repeated_name_made_unique", "C15.uniqNamesOld_collision_witness"],
             gen=gen_rt,
             impl=impl_rt,
             model_req=model_req_rt,
@@ -354,7 +352,6 @@ CHECK = Check(
             rule="standardize (mean 0 / variance 1 within 1e-9, all zeros iff constant, incl. columns of scale 1e-9 and 1e-12 and columns whose offset is 1e6..1e12 times their spread), append, subset (requested order, unknown samples dropped), check_missing (raise / discard exactly the rows holding -9)",
         ),
     ],
-    known_predicates={"suffix_collision": known_suffix},
     trusted=["numpy array2string(floatmode='unique') prints, and float64(token) parses, every finite double so that the value is recovered (checked bitwise on the sampled values, not proved)", "csv module tab splitting"],
     assumptions=["sample IDs and name tokens contain no tab or newline; values are finite"],
     partial="Dragon4 shortest printing and strtod correct rounding for all doubles are validated bitwise on samples, not proved",
